@@ -164,7 +164,7 @@ def run_c14(o, tier, rng, prep):
     res = V.run_cases(cases)
     mm, _ = V.compare(res, use_spec=False)
     report(o, "eval on single-piece basis (exhaustive) and random placements with mirrored and side-flipped twins", res, mm, [],
-           nontrivial=lambda r: r.get("I") not in (None, "eval 0"))
+           nontrivial=lambda r: r.get("I") is not None and not r.get("I").startswith("eval 0 "))
     o.rule = "placements: 768 single-piece boards (exhaustive) plus random placements (up to nine queens a side, pawns on any rank), each with its colour-mirrored twin and its side-flipped twin; distinct = distinct FENs with a non-zero evaluation"
     bound = None
     try:
@@ -183,6 +183,13 @@ def run_c14(o, tier, rng, prep):
             o.violation("input", "mirror symmetry fails: eval=%d mirrored=%d for %s" % (a, m, res[i]["case"]), {"case": res[i]["case"], "mirror": res[i + 1]["case"], "values": [a, m]})
         if a != -fl:
             o.violation("input", "side relativity fails: eval=%d other side=%d for %s" % (a, fl, res[i]["case"]), {"case": res[i]["case"], "values": [a, fl]})
+        # the same on one board object: handing the move to the other side (as the null move does) negates the
+        # number, and asking again gives the same number (the evaluation depends on nothing else)
+        for k in range(3):
+            w = res[i + k]["I"].split(" ")
+            if len(w) >= 6 and (int(w[3]) != -int(w[1]) or int(w[5]) != int(w[1])):
+                o.violation("input", "evaluation depends on more than placement and side: eval=%s, side handed over=%s, asked again=%s for %s" % (w[1], w[3], w[5], res[i + k]["case"]),
+                            {"case": res[i + k]["case"], "values": w})
         if bound is not None and abs(a) >= bound:
             o.violation("input", "evaluation %d reaches the mate range for %s" % (a, res[i]["case"]), {"case": res[i]["case"], "value": a})
     o.oblige("metamorphic relations (mirror, side, bound) on the implementation", not o.violations)
@@ -798,6 +805,9 @@ UNDERPROMOTION_FENS = [
     "n1n5/PPPk4/8/8/8/8/4Kppp/5N1N b - - 0 1",
     "8/PPP4k/8/8/8/8/4Kppp/8 w - - 0 1",
     "4k3/P6P/8/8/8/8/p6p/4K3 w - - 0 1",
+    # an under-promotion *capture* at the horizon is strictly best (b7xc8=N+ / g2xf1=N+): witnesses of a seeded change
+    "2bk4/1P4Np/p1P5/B3n3/8/5QP1/7P/6K1 b - - 0 1",
+    "8/8/8/8/q7/8/4K1p1/k4N1R w - - 0 1",
 ]
 
 
